@@ -21,6 +21,8 @@ def is_period_normaliser(f):
     attrs = [n.attr for n in ast.walk(f.node) if isinstance(n, ast.Attribute)]
     table = [n for n in ast.walk(f.node) if isinstance(n, ast.Subscript) and isinstance(n.value, ast.Attribute) and n.value.attr == 'U']
     keys = {ast.unparse(n.slice).split('.')[-1] for n in table}
+    if 'get_sampling_period' in attrs and 'unit' in keys:
+        return True          # through the accessor: period * U[period unit]
     return 'sampling_period' in attrs and {'sampling_period_unit', 'unit'} <= keys
 
 
@@ -161,4 +163,34 @@ def check_raw_bounds(ix, rep, prefixes=('rtamt/semantics/', 'rtamt/explanation/'
                     rep.fail(rule, mod.rel, sym, slot, '`%s` is used without its unit and without the sampling period (%d reads, e.g. `%s`): the written number is taken for a number of '
                              'samples, which it is only for a period of 1 in the default unit -- with a period of 500 ms, `[0,1]` spans two more samples than the one this code looks at'
                              % (ast.unparse(xs[0]), len(xs), ast.unparse(xs[0])), xs[0].lineno)
+    return n
+
+
+def check_period_normalisers(ix, rep, rule='R-DIM'):
+    """one sampling period as a duration in the default unit: period * U[period unit] / U[default unit], on every path, for every caller (no
+    fallback constant when something is missing)"""
+    from sa import alg
+    from sa.rules import units
+    n = 0
+    for mod in sorted(ix.modules.values(), key=lambda m: m.rel):
+        if not mod.rel.startswith('rtamt/pastifier/'):
+            continue
+        for f in mod.functions.values():
+            if not is_period_normaliser(f):
+                continue
+            n += 1
+            rep.analysed(f)
+            run = units.TransformerRun(f, False, False, ix=ix, nodep='#none')
+            run.run()
+            want = alg.RatFun.sym('period') * alg.RatFun.sym('U[P]') / alg.RatFun.sym('U[D]')
+            slot = 'period-normaliser:%s' % f.node.name
+            bad = [m for (_l, m) in run.problems]
+            if bad:
+                rep.fail(rule, f.module.rel, f.qual, slot, 'the period normaliser %s' % bad[0], run.problems[0][0])
+            elif run.ret_scalar is None:
+                rep.fail(rule, f.module.rel, f.qual, slot, 'no period returned', f.node.lineno)
+            elif run.ret_scalar.same(want):
+                rep.ok(rule, f.module.rel, f.qual, slot, 'sampling_period * U[period unit] / U[default unit]', f.node.lineno)
+            else:
+                rep.fail(rule, f.module.rel, f.qual, slot, 'one sampling period in the default unit is %r, it has to be sampling_period * U[period unit] / U[default unit]' % run.ret_scalar, f.node.lineno)
     return n
